@@ -185,7 +185,7 @@ def run_c04(tier, seed):
         viol.append({"key": "C04:" + what[:80], "what": what, "text": text})
     evals += 1
     gens = [small_programs()]
-    n_rand = 700 if tier == "quick" else 40000
+    n_rand = 700 if tier == "quick" else 12000
 
     def rand_progs():
         for _ in range(n_rand):
